@@ -201,6 +201,11 @@ func (c *Client) begin(call *Call) (Outcome, error) {
 		if call.Write {
 			s.logWrite(&WriteRecord{Call: *call, Err: "injected error before"})
 		}
+		if s.ErrBeforeFn != nil {
+			if err := s.ErrBeforeFn(*call); err != nil {
+				return out, err
+			}
+		}
 		return out, serverErr(*call)
 	case Conflict:
 		s.logWrite(&WriteRecord{Call: *call, Err: "injected conflict"})
